@@ -38,7 +38,7 @@ func init() {
 		CaseTimeout: 150 * time.Second,
 		Run:         runC05,
 		Floors: func(tier string) map[string]int {
-			m := map[string]int{"images_judged": 600, "recovered_before": 20, "recovered_after": 20, "post_recovery_commits": 200}
+			m := map[string]int{"images_judged": 600, "recovered_before": 20, "recovered_after": 20, "post_recovery_commits": 200, "wal_single_frame_tx": 1}
 			for _, s := range c05Shapes {
 				m["shape_"+s] = 1
 				m["points_"+s] = 5
@@ -414,6 +414,17 @@ func runC05(c *core.Case) {
 			spec.Frames = append(spec.Frames, pager.FrameSpec{Pgno: p})
 		}
 		spec.Frames = append(spec.Frames, pager.FrameSpec{Pgno: 1})
+		if shape == "wal-commit" && variant%3 == 2 {
+			// a transaction of exactly one frame, on a page the newest transaction
+			// file does not hold (WAL commits need not touch page 1)
+			if r := w.conn.RunWALTx(pager.WALSpec{NewPageN: cur, Outcome: "commit", SplitFrame: true, Frames: []pager.FrameSpec{{Pgno: 2}}}); r.Err != nil {
+				c.Violate("C05/setup", "single-frame predecessor: "+r.Err.Error(), detail)
+				return
+			}
+			w.record()
+			spec = pager.WALSpec{NewPageN: cur, Outcome: "commit", SplitFrame: true, Frames: []pager.FrameSpec{{Pgno: 3}}}
+			c.Count("wal_single_frame_tx", 1)
+		}
 		ok = runTx(func() pager.TxResult { return w.conn.RunWALTx(spec) })
 	case "app-checkpoint":
 		if !setup(uint32(8+variant%5), 3) {
